@@ -2,7 +2,7 @@
    Which of them are proved, proved in an exact-but-different form, or refuted: see Properties.v,
    PropertiesExit.v / PropertiesExitRefuted.v and notes/C13.md. *)
 From Coq Require Import ZArith List String Bool.
-From C13 Require Import Types Model Proofs ProofsUnused ProofsDisable ProofsExit.
+From C13 Require Import Types Model Proofs ProofsUnused ProofsDisable ProofsExit ProofsOutput.
 Import ListNotations.
 Open Scope list_scope.
 Open Scope Z_scope.
@@ -40,10 +40,21 @@ Definition unused_iff_suppressed_nothing_naive : Prop := forall c E l codes,
    <-> forall i, In i E -> absorbed_at c i <> Some l).
 
 (* "The process exits with 0 iff no error-severity message was reported, 2 iff a blocking error stopped
-   analysis, and 1 otherwise" -- REFUTED for the substring count_stats (PropertiesExitRefuted.exit_code_refuted,
-   finding F1), proved for the position-aware one (PropertiesExit.exit_code_truth). *)
+   analysis, and 1 otherwise" -- REFUTED for the substring count_stats (alt/ExitRefuted: exit_code_refuted,
+   finding F1), proved for the position-aware one (alt/ExitTruth: exit_code_truth; and on the final printed
+   list, after the limiter / sort_messages / remove_duplicates: exit_code_truth_final, exit_code_truth_limiter).
+   Whichever applies is copied to coq/gen/ErrorsExit.v by tools/extractors/t13.py. *)
 Definition exit_code_truth_stmt : Prop := forall msgs blockers,
   Forall wf_msg msgs -> (blockers = true -> has_error msgs) ->
   (exit_status msgs blockers = 0 <-> ~ has_error msgs) /\
   (exit_status msgs blockers = 2 <-> blockers = true) /\
   (exit_status msgs blockers = 1 <-> has_error msgs /\ blockers = false).
+
+(* the same, about what is finally printed for an error_info_map entry o *)
+Definition exit_code_truth_final_stmt : Prop := forall srcloc hc snc o blockers,
+  (forall e, wf_src (srcloc e) = true) -> errors_have_no_parent o ->
+  (blockers = true -> visible_error o) ->
+  let msgs := printed srcloc hc snc o in
+  (exit_status msgs blockers = 0 <-> ~ visible_error o) /\
+  (exit_status msgs blockers = 2 <-> blockers = true) /\
+  (exit_status msgs blockers = 1 <-> visible_error o /\ blockers = false).
